@@ -1027,17 +1027,22 @@ func (s *sim) antiEntropy(a, b *node, budget int) {
 			// (i) the block b waits for, from wherever a holds it
 			if rb.ProposalBlockParts != nil && !rb.ProposalBlockParts.IsComplete() {
 				hdr := rb.ProposalBlockParts.Header()
-				for _, ps := range []*types.PartSet{ra.ProposalBlockParts, ra.LockedBlockParts, ra.ValidBlockParts} {
-					if ps == nil || !ps.HasHeader(hdr) {
+				bb := rb.ProposalBlockParts.BitArray()
+				for i := 0; i < hdr.Total; i++ {
+					if bb.GetIndex(i) {
 						continue
 					}
-					bb := rb.ProposalBlockParts.BitArray()
-					for i := 0; i < ps.Total(); i++ {
-						if p := ps.GetPart(i); p != nil && !bb.GetIndex(i) {
+					// any of a's part sets may hold part i (a re-proposal resets ProposalBlockParts to an empty set
+					// with the same header while the locked/valid copy is complete)
+					for _, ps := range []*types.PartSet{ra.ProposalBlockParts, ra.LockedBlockParts, ra.ValidBlockParts} {
+						if ps == nil || !ps.HasHeader(hdr) {
+							continue
+						}
+						if p := ps.GetPart(i); p != nil {
 							send(&netMsg{msg: &cons.BlockPartMessage{Height: rb.Height, Round: rb.Round, Part: p}, desc: fmt.Sprintf("omni part %d #%d %s", rb.Height, i, short(hdr.Hash))})
+							break
 						}
 					}
-					break
 				}
 			}
 			// (ii) every vote of every round a knows; a node waiting in the commit step only gets rounds up to its own
